@@ -308,6 +308,27 @@ EXTRA = [
     top = r
   return (r, Last.top)
 '''),
+    ('e:declarations_at_block_tails', '''def f(x, n, b, xs):
+  acc = 0
+  i = 0
+  while i < n:
+    acc = acc + i
+    i = i + 1
+    note: int
+  if b:
+    w = 1
+    y = 5
+    tail: int
+  else:
+    w = 2
+  if x > 0:
+    w = w + 1
+  for e in xs:
+    acc = acc + e
+    other: 'str'
+  z = w + acc
+  return (acc, i, w, z)
+'''),
     ('e:maybe_undefined', '''def f(x, n, b, xs):
   if b:
     u = 1
